@@ -36,6 +36,11 @@ def rule_wait(prog):
                 fl = receiver_fields(f, t)
                 if fl and fl[-1] == "extra_waiting":
                     clears.append(bi)
+            # `self.waiting.take()` empties the main slot as well as `self.waiting = None`
+            if (callee_name(t) or "") in ("core::option::Option::take", "core::mem::take", "core::mem::replace") and t["args"]:
+                fl = receiver_fields(f, t)
+                if fl and fl[-1] == "waiting":
+                    clears.append(bi)
         res.inst("%s/anchors" % fn_name, do_action=len(das), clears=len(clears))
         if not das or len(clears) < 2:
             res.viol("%s/anchors" % fn_name, f.loc, "%s lost its do_action call or one of its two slot-clearing statements" % fn_name)
